@@ -935,6 +935,248 @@ theorem scale_nurbs_model {X : Type} (F : Func K) (fac : List K) (m : Nat) (B : 
   ring
 
 
+
+theorem outerOp_length (op : K → K → K) (n1 m1 n2 m2 : Nat) (C1 C2 : List K) :
+    (outerOp op n1 m1 n2 m2 C1 C2).length = n1 * (n2 * max m1 m2) := by
+  unfold outerOp
+  exact length_flatMap_chunks n1 (n2 * max m1 m2) _
+    (fun I1 => length_flatMap_chunks n2 (max m1 m2) _ (fun I2 => by simp))
+
+/-- the weight array `W1 ⊗ W2` of an outer operation -/
+theorem outerW_getD (n1 n2 : Nat) (W1 W2 : List K) (k1 k2 : Nat) (h1 : k1 < n1) (h2 : k2 < n2) :
+    (outerOp (· * ·) n1 1 n2 1 W1 W2).getD (k1 * n2 + k2) 0 = W1.getD k1 0 * W2.getD k2 0 := by
+  have := outerOp_getD (· * ·) n1 1 n2 1 W1 W2 k1 k2 0 h1 h2 (by simp)
+  simpa using this
+
+/-- entries of the coefficient list of `outer_sum` / `outer_product` with NURBS operands -/
+theorem nurbsOuter_at (op : K → K → K) (G1 G2 : Func K) (m1 m2 : Nat)
+    (hn1 : G1.ncomp = m1 + 1) (hn2 : G2.ncomp = m2 + 1)
+    (hl1 : G1.c.length = G1.npts * (m1 + 1)) (hl2 : G2.c.length = G2.npts * (m2 + 1))
+    (hm1 : 0 < m1) (hm2 : 0 < m2)
+    (k1 k2 b : Nat) (h1 : k1 < G1.npts) (h2 : k2 < G2.npts) (hb : b ≤ max m1 m2) :
+    (nurbsOuter op G1 G2).at ((k1 * G2.npts + k2) * (max m1 m2 + 1) + b)
+      = if b < max m1 m2 then
+          op (G1.at (k1 * (m1 + 1) + b % m1) / G1.at (k1 * (m1 + 1) + m1))
+             (G2.at (k2 * (m2 + 1) + b % m2) / G2.at (k2 * (m2 + 1) + m2))
+            * (G1.at (k1 * (m1 + 1) + m1) * G2.at (k2 * (m2 + 1) + m2))
+        else G1.at (k1 * (m1 + 1) + m1) * G2.at (k2 * (m2 + 1) + m2) := by
+  have e1 : G1.ncomp - 1 = m1 := by omega
+  have e2 : G2.ncomp - 1 = m2 := by omega
+  have hk : k1 * G2.npts + k2 < G1.npts * G2.npts := by
+    calc k1 * G2.npts + k2 < k1 * G2.npts + G2.npts := by omega
+      _ = (k1 + 1) * G2.npts := by ring
+      _ ≤ _ := Nat.mul_le_mul_right _ (by omega)
+  unfold nurbsOuter
+  simp only [e1, e2]
+  rw [mkNurbs_at' _ (max m1 m2) _ _ (k1 * G2.npts + k2) b
+    (by rw [outerOp_length]; simpa using hk) hb,
+    outerW_getD G1.npts G2.npts _ _ k1 k2 h1 h2,
+    coeffsWeights_W_getD G1 m1 G1.npts hn1 hl1 k1 h1, coeffsWeights_W_getD G2 m2 G2.npts hn2 hl2 k2 h2]
+  by_cases hbm : b < max m1 m2
+  · rw [if_pos hbm, if_pos hbm, outerOp_getD op G1.npts m1 G2.npts m2 _ _ k1 k2 b h1 h2 hbm,
+      (coeffsWeights_getD G1 m1 G1.npts hn1 hl1 k1 (b % m1) h1 (Nat.mod_lt _ hm1)).1,
+      (coeffsWeights_getD G2 m2 G2.npts hn2 hl2 k2 (b % m2) h2 (Nat.mod_lt _ hm2)).1]
+  · rw [if_neg hbm, if_neg hbm]
+
+/-- **outer_sum / outer_product with NURBS operands, on the model's list-level constructor**
+(`coeffs_weights()` of both operands, `C1 ∘ C2`, `W1 * W2`, `NurbsFunc.__init__`): the NURBS value at
+the node `ys1 ++ ys2` is `N1(ys1) + N2(ys2)` resp. `N1(ys1) · N2(ys2)` (components broadcast),
+for every pair of source dimensions; needs non-zero control weights and weight functions only. -/
+theorem outer_nurbs_model {X : Type} (G1 G2 : Func K) (m1 m2 : Nat) (B : Nat → X → Info K)
+    (ys1 ys2 : List X) (b : Nat)
+    (hn1 : G1.ncomp = m1 + 1) (hn2 : G2.ncomp = m2 + 1)
+    (hlen1 : G1.c.length = G1.npts * (m1 + 1)) (hlen2 : G2.c.length = G2.npts * (m2 + 1))
+    (hm1 : 0 < m1) (hm2 : 0 < m2)
+    (hl1 : ys1.length = G1.dims.length) (hl2 : ys2.length = G2.dims.length)
+    (hb : b < max m1 m2)
+    (hw1 : ∀ k, k < G1.npts → G1.at (k * (m1 + 1) + m1) ≠ 0)
+    (hw2 : ∀ k, k < G2.npts → G2.at (k * (m2 + 1) + m2) ≠ 0)
+    (hW1 : contract G1.at (m1 + 1) m1 (rows B 0 G1.dims ys1 (List.replicate G1.dims.length 0)) 0 ≠ 0)
+    (hW2 : contract G2.at (m2 + 1) m2 (rows B G1.dims.length G2.dims ys2 (List.replicate G2.dims.length 0)) 0 ≠ 0) :
+    let r1 := rows B 0 G1.dims ys1 (List.replicate G1.dims.length 0)
+    let r2 := rows B G1.dims.length G2.dims ys2 (List.replicate G2.dims.length 0)
+    let N1 := contract G1.at (m1 + 1) (b % m1) r1 0 / contract G1.at (m1 + 1) m1 r1 0
+    let N2 := contract G2.at (m2 + 1) (b % m2) r2 0 / contract G2.at (m2 + 1) m2 r2 0
+    (nurbsOuter (· + ·) G1 G2).toSpl.gridVal B (ys1 ++ ys2) b
+        / (nurbsOuter (· + ·) G1 G2).toSpl.gridVal B (ys1 ++ ys2) (max m1 m2) = N1 + N2 ∧
+    (nurbsOuter (· * ·) G1 G2).toSpl.gridVal B (ys1 ++ ys2) b
+        / (nurbsOuter (· * ·) G1 G2).toSpl.gridVal B (ys1 ++ ys2) (max m1 m2) = N1 * N2 := by
+  intro r1 r2 N1 N2
+  have hs1 : size r1 = G1.npts := size_rows B G1.dims ys1 _ 0 hl1 (by simp)
+  have hs2 : size r2 = G2.npts := size_rows B G2.dims ys2 _ G1.dims.length hl2 (by simp)
+  have e1 : G1.ncomp - 1 = m1 := by omega
+  have e2 : G2.ncomp - 1 = m2 := by omega
+  have hncR : ∀ op : K → K → K, (nurbsOuter op G1 G2).ncomp = max m1 m2 + 1 := by
+    intro op
+    have : (nurbsOuter op G1 G2).ncomp = prod [max (G1.ncomp - 1) (G2.ncomp - 1)] + 1 := by
+      unfold nurbsOuter; simp [Func.ncomp, mkNurbs, Index.prod]
+    rw [this, e1, e2]; simp [Index.prod]
+  have hrows : ∀ op : K → K → K, ∀ j,
+      (nurbsOuter op G1 G2).toSpl.gridVal B (ys1 ++ ys2) j
+        = nest (fun k => (nurbsOuter op G1 G2).at (k * (max m1 m2 + 1) + j)) (r1 ++ r2) 0 := by
+    intro op j
+    show contract (nurbsOuter op G1 G2).at (nurbsOuter op G1 G2).ncomp j
+        (rows B 0 (G1.dims ++ G2.dims) (ys1 ++ ys2) (List.replicate (G1.dims ++ G2.dims).length 0)) 0 = _
+    rw [hncR, List.length_append, List.replicate_add,
+      rows_append B G2.dims ys2 _ G1.dims ys1 _ 0 hl1 (by simp), Nat.zero_add, contract_eq_nest]
+  rw [hrows, hrows, hrows, hrows]
+  have key := outer_nurbs_law r1 r2
+    (fun k1 => G1.at (k1 * (m1 + 1) + b % m1)) (fun k1 => G1.at (k1 * (m1 + 1) + m1))
+    (fun k2 => G2.at (k2 * (m2 + 1) + b % m2)) (fun k2 => G2.at (k2 * (m2 + 1) + m2))
+    (fun k => (nurbsOuter (· + ·) G1 G2).at (k * (max m1 m2 + 1) + b))
+    (fun k => (nurbsOuter (· * ·) G1 G2).at (k * (max m1 m2 + 1) + b))
+    (fun k => (nurbsOuter (· + ·) G1 G2).at (k * (max m1 m2 + 1) + max m1 m2))
+    (fun k1 k2 hk1 hk2 => by
+      rw [hs1] at hk1; rw [hs2] at hk2; rw [hs2]
+      rw [nurbsOuter_at (· + ·) G1 G2 m1 m2 hn1 hn2 hlen1 hlen2 hm1 hm2 k1 k2 b hk1 hk2 (by omega), if_pos hb])
+    (fun k1 k2 hk1 hk2 => by
+      rw [hs1] at hk1; rw [hs2] at hk2; rw [hs2]
+      rw [nurbsOuter_at (· * ·) G1 G2 m1 m2 hn1 hn2 hlen1 hlen2 hm1 hm2 k1 k2 b hk1 hk2 (by omega), if_pos hb])
+    (fun k1 k2 hk1 hk2 => by
+      rw [hs1] at hk1; rw [hs2] at hk2; rw [hs2]
+      rw [nurbsOuter_at (· + ·) G1 G2 m1 m2 hn1 hn2 hlen1 hlen2 hm1 hm2 k1 k2 _ hk1 hk2 (Nat.le_refl _),
+        if_neg (Nat.lt_irrefl _)])
+    (fun k hk => hw1 k (by rw [hs1] at hk; exact hk))
+    (fun k hk => hw2 k (by rw [hs2] at hk; exact hk))
+    (by simpa [contract_eq_nest] using hW1) (by simpa [contract_eq_nest] using hW2)
+  -- the product uses the same weight array
+  have hwsame : ∀ k, k < size (r1 ++ r2) →
+      (nurbsOuter (· * ·) G1 G2).at (0 * size (r1 ++ r2) + k * (max m1 m2 + 1) + max m1 m2)
+        = (nurbsOuter (· + ·) G1 G2).at (0 * size (r1 ++ r2) + k * (max m1 m2 + 1) + max m1 m2) := by
+    intro k hk
+    rw [size_append, hs1, hs2] at hk
+    simp only [Nat.zero_mul, Nat.zero_add]
+    have hG2 : 0 < G2.npts := by
+      rcases Nat.eq_zero_or_pos G2.npts with h | h
+      · rw [h] at hk; simp at hk
+      · exact h
+    have hk1 : k / G2.npts < G1.npts := Nat.div_lt_of_lt_mul (by rw [Nat.mul_comm]; exact hk)
+    have hk2 : k % G2.npts < G2.npts := Nat.mod_lt _ hG2
+    have hk' : k = (k / G2.npts) * G2.npts + k % G2.npts := by
+      rw [Nat.mul_comm]; exact (Nat.div_add_mod k G2.npts).symm
+    rw [hk', nurbsOuter_at (· * ·) G1 G2 m1 m2 hn1 hn2 hlen1 hlen2 hm1 hm2 _ _ _ hk1 hk2 (Nat.le_refl _),
+      nurbsOuter_at (· + ·) G1 G2 m1 m2 hn1 hn2 hlen1 hlen2 hm1 hm2 _ _ _ hk1 hk2 (Nat.le_refl _),
+      if_neg (Nat.lt_irrefl _), if_neg (Nat.lt_irrefl _)]
+  have hden : nest (fun k => (nurbsOuter (· * ·) G1 G2).at (k * (max m1 m2 + 1) + max m1 m2)) (r1 ++ r2) 0
+      = nest (fun k => (nurbsOuter (· + ·) G1 G2).at (k * (max m1 m2 + 1) + max m1 m2)) (r1 ++ r2) 0 := by
+    apply nest_congr_bounded
+    intro k hk
+    have := hwsame k hk
+    simpa using this
+  rw [hden]
+  simp only [N1, N2, contract_eq_nest]
+  exact key
+
+
+
+/-- **tensor_product with NURBS operands** (index-formula level): premultiplying the joined
+de-premultiplied control points with `W1·W2` and dividing by the weight spline `W1(y)·W2(x)` gives
+`G2`'s NURBS value in the first `m2` components and `G1`'s in the rest. -/
+theorem tensor_nurbs_law (r1 r2 : List (Nat × (Nat → K))) (c1 w1 c2 w2 cn w : Nat → K) (first : Prop) [Decidable first]
+    (hn : ∀ k1 k2, k1 < size r1 → k2 < size r2 → cn (k1 * size r2 + k2)
+        = (if first then c2 k2 / w2 k2 else c1 k1 / w1 k1) * (w1 k1 * w2 k2))
+    (hw : ∀ k1 k2, k1 < size r1 → k2 < size r2 → w (k1 * size r2 + k2) = w1 k1 * w2 k2)
+    (hw1 : ∀ k, k < size r1 → w1 k ≠ 0) (hw2 : ∀ k, k < size r2 → w2 k ≠ 0)
+    (hW1 : nest w1 r1 0 ≠ 0) (hW2 : nest w2 r2 0 ≠ 0) :
+    nest cn (r1 ++ r2) 0 / nest w (r1 ++ r2) 0
+      = if first then nest c2 r2 0 / nest w2 r2 0 else nest c1 r1 0 / nest w1 r1 0 := by
+  have eW : nest w (r1 ++ r2) 0 = nest w1 r1 0 * nest w2 r2 0 := by
+    rw [nest_two' w r1 r2 (fun k1 k2 => w1 k1 * w2 k2) hw, nest_congr (fun k1 => nest_smul _ _ _ _), nest_mul_right]
+  by_cases hf : first
+  · have hn' : ∀ k1 k2, k1 < size r1 → k2 < size r2 → cn (k1 * size r2 + k2) = w1 k1 * c2 k2 := by
+      intro k1 k2 hk1 hk2; rw [hn k1 k2 hk1 hk2, if_pos hf]; have := hw2 k2 hk2; field_simp
+    rw [if_pos hf, eW, nest_two' cn r1 r2 (fun k1 k2 => w1 k1 * c2 k2) hn',
+      nest_congr (fun k1 => nest_smul _ _ _ _), nest_mul_right]
+    field_simp
+  · have hn' : ∀ k1 k2, k1 < size r1 → k2 < size r2 → cn (k1 * size r2 + k2) = c1 k1 * w2 k2 := by
+      intro k1 k2 hk1 hk2; rw [hn k1 k2 hk1 hk2, if_neg hf]; have := hw1 k1 hk1; field_simp
+    rw [if_neg hf, eW, nest_two' cn r1 r2 (fun k1 k2 => c1 k1 * w2 k2) hn',
+      nest_congr (fun k1 => nest_smul _ _ _ _), nest_mul_right]
+    field_simp
+
+/-- entries of the coefficient list of `tensor_product` with NURBS operands -/
+theorem nurbsTensor_at (G1 G2 : Func K) (m1 m2 : Nat)
+    (hn1 : G1.ncomp = m1 + 1) (hn2 : G2.ncomp = m2 + 1)
+    (hl1 : G1.c.length = G1.npts * (m1 + 1)) (hl2 : G2.c.length = G2.npts * (m2 + 1))
+    (k1 k2 b : Nat) (h1 : k1 < G1.npts) (h2 : k2 < G2.npts) (hb : b ≤ m1 + m2) :
+    (nurbsTensor G1 G2).at ((k1 * G2.npts + k2) * (m1 + m2 + 1) + b)
+      = if b < m1 + m2 then
+          (if b < m2 then G2.at (k2 * (m2 + 1) + b) / G2.at (k2 * (m2 + 1) + m2)
+           else G1.at (k1 * (m1 + 1) + (b - m2)) / G1.at (k1 * (m1 + 1) + m1))
+            * (G1.at (k1 * (m1 + 1) + m1) * G2.at (k2 * (m2 + 1) + m2))
+        else G1.at (k1 * (m1 + 1) + m1) * G2.at (k2 * (m2 + 1) + m2) := by
+  have e1 : G1.ncomp - 1 = m1 := by omega
+  have e2 : G2.ncomp - 1 = m2 := by omega
+  have hk : k1 * G2.npts + k2 < G1.npts * G2.npts := by
+    calc k1 * G2.npts + k2 < k1 * G2.npts + G2.npts := by omega
+      _ = (k1 + 1) * G2.npts := by ring
+      _ ≤ _ := Nat.mul_le_mul_right _ (by omega)
+  unfold nurbsTensor
+  simp only [e1, e2]
+  rw [mkNurbs_at' _ (m1 + m2) _ _ (k1 * G2.npts + k2) b
+    (by rw [outerOp_length]; simpa using hk) hb,
+    outerW_getD G1.npts G2.npts _ _ k1 k2 h1 h2,
+    coeffsWeights_W_getD G1 m1 G1.npts hn1 hl1 k1 h1, coeffsWeights_W_getD G2 m2 G2.npts hn2 hl2 k2 h2]
+  by_cases hbm : b < m1 + m2
+  · rw [if_pos hbm, if_pos hbm, tensorC_getD G1.npts m1 G2.npts m2 _ _ k1 k2 b h1 h2 hbm]
+    by_cases hb2 : b < m2
+    · rw [if_pos hb2, if_pos hb2, (coeffsWeights_getD G2 m2 G2.npts hn2 hl2 k2 b h2 hb2).1]
+    · rw [if_neg hb2, if_neg hb2, (coeffsWeights_getD G1 m1 G1.npts hn1 hl1 k1 (b - m2) h1 (by omega)).1]
+  · rw [if_neg hbm, if_neg hbm]
+
+/-- **tensor_product with NURBS operands, on the model's list-level constructor**: at the node
+`ys1 ++ ys2` the first `m2` components are `G2`'s NURBS value, the rest `G1`'s —
+`G(x, y) = (G2(x), G1(y))` — for every pair of source dimensions. -/
+theorem tensor_nurbs_model {X : Type} (G1 G2 : Func K) (m1 m2 : Nat) (B : Nat → X → Info K)
+    (ys1 ys2 : List X) (b : Nat)
+    (hn1 : G1.ncomp = m1 + 1) (hn2 : G2.ncomp = m2 + 1)
+    (hlen1 : G1.c.length = G1.npts * (m1 + 1)) (hlen2 : G2.c.length = G2.npts * (m2 + 1))
+    (hl1 : ys1.length = G1.dims.length) (hl2 : ys2.length = G2.dims.length)
+    (hb : b < m1 + m2)
+    (hw1 : ∀ k, k < G1.npts → G1.at (k * (m1 + 1) + m1) ≠ 0)
+    (hw2 : ∀ k, k < G2.npts → G2.at (k * (m2 + 1) + m2) ≠ 0)
+    (hW1 : contract G1.at (m1 + 1) m1 (rows B 0 G1.dims ys1 (List.replicate G1.dims.length 0)) 0 ≠ 0)
+    (hW2 : contract G2.at (m2 + 1) m2 (rows B G1.dims.length G2.dims ys2 (List.replicate G2.dims.length 0)) 0 ≠ 0) :
+    let r1 := rows B 0 G1.dims ys1 (List.replicate G1.dims.length 0)
+    let r2 := rows B G1.dims.length G2.dims ys2 (List.replicate G2.dims.length 0)
+    (nurbsTensor G1 G2).toSpl.gridVal B (ys1 ++ ys2) b
+        / (nurbsTensor G1 G2).toSpl.gridVal B (ys1 ++ ys2) (m1 + m2)
+      = if b < m2 then contract G2.at (m2 + 1) b r2 0 / contract G2.at (m2 + 1) m2 r2 0
+        else contract G1.at (m1 + 1) (b - m2) r1 0 / contract G1.at (m1 + 1) m1 r1 0 := by
+  intro r1 r2
+  have hs1 : size r1 = G1.npts := size_rows B G1.dims ys1 _ 0 hl1 (by simp)
+  have hs2 : size r2 = G2.npts := size_rows B G2.dims ys2 _ G1.dims.length hl2 (by simp)
+  have e1 : G1.ncomp - 1 = m1 := by omega
+  have e2 : G2.ncomp - 1 = m2 := by omega
+  have hncR : (nurbsTensor G1 G2).ncomp = m1 + m2 + 1 := by
+    have : (nurbsTensor G1 G2).ncomp = prod [(G1.ncomp - 1) + (G2.ncomp - 1)] + 1 := by
+      unfold nurbsTensor; simp [Func.ncomp, mkNurbs, Index.prod]
+    rw [this, e1, e2]; simp [Index.prod]
+  have hrows : ∀ j, (nurbsTensor G1 G2).toSpl.gridVal B (ys1 ++ ys2) j
+        = nest (fun k => (nurbsTensor G1 G2).at (k * (m1 + m2 + 1) + j)) (r1 ++ r2) 0 := by
+    intro j
+    show contract (nurbsTensor G1 G2).at (nurbsTensor G1 G2).ncomp j
+        (rows B 0 (G1.dims ++ G2.dims) (ys1 ++ ys2) (List.replicate (G1.dims ++ G2.dims).length 0)) 0 = _
+    rw [hncR, List.length_append, List.replicate_add,
+      rows_append B G2.dims ys2 _ G1.dims ys1 _ 0 hl1 (by simp), Nat.zero_add, contract_eq_nest]
+  rw [hrows, hrows]
+  simp only [contract_eq_nest]
+  exact tensor_nurbs_law r1 r2
+    (fun k1 => G1.at (k1 * (m1 + 1) + (b - m2))) (fun k1 => G1.at (k1 * (m1 + 1) + m1))
+    (fun k2 => G2.at (k2 * (m2 + 1) + b)) (fun k2 => G2.at (k2 * (m2 + 1) + m2))
+    _ _ (b < m2)
+    (fun k1 k2 hk1 hk2 => by
+      rw [hs1] at hk1; rw [hs2] at hk2; rw [hs2]
+      rw [nurbsTensor_at G1 G2 m1 m2 hn1 hn2 hlen1 hlen2 k1 k2 b hk1 hk2 (by omega), if_pos hb])
+    (fun k1 k2 hk1 hk2 => by
+      rw [hs1] at hk1; rw [hs2] at hk2; rw [hs2]
+      rw [nurbsTensor_at G1 G2 m1 m2 hn1 hn2 hlen1 hlen2 k1 k2 _ hk1 hk2 (Nat.le_refl _),
+        if_neg (Nat.lt_irrefl _)])
+    (fun k hk => hw1 k (by rw [hs1] at hk; exact hk))
+    (fun k hk => hw2 k (by rw [hs2] at hk; exact hk))
+    (by simpa [contract_eq_nest] using hW1) (by simpa [contract_eq_nest] using hW2)
+
+
 /-! ## 4. circular arcs lie on exact circles -/
 
 /-- **one rational quadratic segment.**  Control points (premultiplied, as coded)
